@@ -5,6 +5,7 @@
 #include <mdspan/mdspan.hpp>
 #include <cstdio>
 #include <cstdlib>
+#include <cstring>
 #include <string>
 #include <vector>
 #include <map>
@@ -12,7 +13,10 @@
 #include <iostream>
 #include <functional>
 #include <array>
+#include <csetjmp>
+#include <csignal>
 namespace md = Kokkos;
+static sigjmp_buf g_jb; static void onTrap(int) { siglongjmp(g_jb, 1); }
 typedef std::vector<long long> LL;
 static long long parseNum(const std::string& t) { if (t.empty()) return 0; if (t[0] == '-') return (long long)(0ull - std::stoull(t.substr(1))); return (long long)std::stoull(t); }
 static LL parseList(const std::string& s) { LL v; if (s == "-" || s.empty()) return v; std::stringstream ss(s); std::string t; while (std::getline(ss, t, ',')) v.push_back(parseNum(t)); return v; }
@@ -65,6 +69,8 @@ template <class I> void regT(const std::string& tn) {
 }
 int main() {
   regT<int>("i32"); regT<unsigned char>("u8"); regT<long>("i64"); regT<short>("i16"); regT<unsigned long>("u64");
+  struct sigaction sa; memset(&sa, 0, sizeof sa); sa.sa_handler = onTrap; sigemptyset(&sa.sa_mask); sa.sa_flags = SA_NODEFER;
+  sigaction(SIGILL, &sa, nullptr); sigaction(SIGFPE, &sa, nullptr); sigaction(SIGTRAP, &sa, nullptr);
   std::string line; setvbuf(stdout, nullptr, _IOLBF, 1 << 16);
   while (std::getline(std::cin, line)) {
     Op o; std::stringstream ss(line); std::string t;
@@ -75,7 +81,7 @@ int main() {
     std::string key = o.tok.size() >= 3 ? o.tok[0] + ":" + o.tok[1] + ":" + o.tok[2] + ":" + o.get("pat") : std::string();
     std::map<std::string, Fn>::iterator it = registry().find(key);
     if (it == registry().end()) { puts("no-inst"); continue; }
-    puts(it->second(o).c_str());
+    if (sigsetjmp(g_jb, 1) == 0) puts(it->second(o).c_str()); else puts("ub");
   }
   return 0;
 }
